@@ -159,7 +159,16 @@ def run_case(case):
     res = []
     for eqp in eqps:
         f = jax.jit(jax.vmap(jax.vmap(lambda coef, z, eqp=eqp: kern(coef, z, eqp), in_axes=(None, 0)), in_axes=(0, None)))
-        res.append(np.asarray(f(fields, zp)))
+        # evaluated in chunks of fields (same compiled function, last chunk padded) to bound the memory of the big cases
+        ch = len(fields) if len(fields) * len(zp) <= 40000 else max(8, 40000 // len(zp))
+        parts = []
+        for a in range(0, len(fields), ch):
+            blk = fields[a:a + ch]
+            npad = ch - len(blk)
+            if npad:
+                blk = jnp.concatenate([blk, jnp.zeros((npad,) + blk.shape[1:], blk.dtype)])
+            parts.append(np.asarray(f(blk, zp))[: ch - npad])
+        res.append(np.concatenate(parts))
     got = res[0].reshape(exact.shape)
     viol = []
     if not np.array_equal(res[0], res[1]):
